@@ -39,10 +39,16 @@ type Mixture struct {
 /* -------------------------------------------------------------------------- */
 
 func NewMixture(weights Vector) (*Mixture, error) {
+  sum := 0.0
   for i := 0; i < weights.Dim(); i++ {
-    if weights.At(i).GetFloat64() < 0.0 {
+    w := weights.At(i).GetFloat64()
+    if w < 0.0 || math.IsNaN(w) || math.IsInf(w, 0) {
       return nil, fmt.Errorf("weights must be positive")
     }
+    sum += w
+  }
+  if weights.Dim() > 0 && sum == 0.0 {
+    return nil, fmt.Errorf("weights must not all be zero")
   }
   r := Mixture{}
   r.LogWeights = weights.CloneVector()
